@@ -129,11 +129,11 @@ impl Prop for C11 {
     fn describe(&self, tier: Tier) -> Descr {
         Descr {
             rule: format!(
-                "every task program of family {}: each task is first scheduled from global scope at a time in {{1,2,3,2.5}} or by the previous task (chaining, delay in the same set), and reschedules itself with period in {{none,1,2,3}}; all combinations = all insertion orders, equal times and truncated times; each task increments its own counter cell and records `now`; family FL: a function binds two closure values (counting in captured locals) and issues every sequence of requests `tick_j@t` over 2 closures x 4 times - so the same closure value is also requested several times for one sample - and returns a reader closure; run for {} samples on VM and WASM with the scheduler plugin and compared at every sample with a sorted-multiset reference (task scheduled for w runs once, before dsp of sample floor(w)). states = distinct (sample, outputs); non-trivial = some task runs.",
+                "every task program of family {}: each task is first scheduled from global scope at a time in {{1,2,3,2.5}}, or by the previous task (chaining, delay in the same set), or by dsp itself at sample 2 (same delays), and reschedules itself with period in {{none,1,2,3}}; all combinations = all insertion orders, equal times and truncated times; each task increments its own counter cell and records `now`; family FL: a function binds two closure values (counting in captured locals) and issues every sequence of requests `tick_j@t` over 2 closures x 4 times - so the same closure value is also requested several times for one sample - and returns a reader closure; run for {} samples on VM and WASM with the scheduler plugin and compared at every sample with a sorted-multiset reference (task scheduled for w runs once, before dsp of sample floor(w)). states = distinct (sample, outputs); non-trivial = some task runs.",
                 space(tier).describe(),
                 samples(tier)
             ),
-            assumptions: vec!["task effects are per-task cells, so the order among tasks due at the same sample is not observed".into(), "scheduling from inside dsp is not generated (only global scope, function bodies run at global initialisation, and running tasks)".into()],
+            assumptions: vec!["task effects are per-task cells, so the order among tasks due at the same sample is not observed".into(), "dsp schedules only at one fixed sample (2), through a helper function".into()],
             bounds: json!({"tasks": space(tier).parts[0].k, "requests_for_local_closures": space(tier).parts[1].k, "samples": samples(tier)}),
             shape: "S",
         }
